@@ -1,6 +1,8 @@
 //! C12 — windows hold exactly the events of their span; aggregates follow.
 //! Four components, one case kind each (first token):
 //!   TW <S|T|N> <d> <start> <cap> <op,..>      TimeWindow::new + add_event (`a`) / record (`r`)
+//!                                             an op `c` = clear() (the window is REUSED afterwards; event ids count the events offered,
+//!                                             clears do not count); the same token in AN op lists = StreamAlphaNode::clear()
 //!   WM <S|T|N> <d> <cap> <maxw> <ev,..>       WindowManager::process_event
 //!   WS T <d> <cap> <ev,..>                    WindowedStream::new (tumbling)
 //!   WS <S|N> <d> <cap> <ev,..>                WindowedStream::new (sliding / session config; N: timeout = duration = d)
@@ -255,16 +257,23 @@ fn exec_tw(t: &[&str]) -> Option<String> {
     let (ty, d, start, cap) = (wtype(t[1])?, parse_dur(t[2])?, t[3].parse::<u64>().ok()?, t[4].parse::<usize>().ok()?);
     let mut w = TimeWindow::new(ty, d, start, cap);
     let mut steps = Vec::new();
-    for (i, op) in list(t[5]).iter().enumerate() {
-        let e = parse_ev(&op[1..])?;
-        let ev = mk_event(i, &e);
-        let ret = match op.as_bytes()[0] {
-            b'a' => w.add_event(ev),
-            b'r' => {
-                w.record(ev);
-                true
+    let mut i = 0usize;
+    for op in list(t[5]).iter() {
+        let ret = if *op == "c" {
+            w.clear();
+            true
+        } else {
+            let e = parse_ev(&op[1..])?;
+            let ev = mk_event(i, &e);
+            i += 1;
+            match op.as_bytes()[0] {
+                b'a' => w.add_event(ev),
+                b'r' => {
+                    w.record(ev);
+                    true
+                }
+                _ => return None,
             }
-            _ => return None,
         };
         let evs: Vec<StreamEvent> = w.events().iter().cloned().collect();
         steps.push(format!(
@@ -416,12 +425,19 @@ fn exec_an(t: &[&str]) -> Option<String> {
     };
     let mut node = StreamAlphaNode::new(STREAM, Some(ETYPE.to_string()), spec).with_max_events(cap);
     let mut steps = Vec::new();
-    for (i, tok) in list(t[4]).iter().enumerate() {
+    let mut i = 0usize;
+    for tok in list(t[4]).iter() {
+        if *tok == "c" {
+            node.clear();
+            steps.push(format!("1/{}", ids(node.get_events().iter())));
+            continue;
+        }
         let (now, ev) = tok.split_once('@')?;
         let now: u64 = now.parse().ok()?;
         let e = parse_ev(ev)?;
         verif_clock::set(Some(now));
         let ret = node.process_event(&mk_event(i, &e));
+        i += 1;
         steps.push(format!("{}/{}", ret as u8, ids(node.get_events().iter())));
     }
     verif_clock::set(None);
@@ -1633,7 +1649,63 @@ fn gen(rng: &mut Rng, n: usize, tier: &str) -> Vec<String> {
     for _ in 0..(n / 16).max(48) {
         out.push(gen_sa(rng));
     }
+    // windows REUSED after clear() (drawn last): every short add / record / clear history, and TW / AN / AN E cases of the
+    // families above with 1..3 clears put in anywhere (first, last, twice in a row)
+    exhaustive_clear(&mut out);
+    for k in 0..(n / 3).max(300) {
+        out.push(gen_clear(rng, k));
+    }
     out
+}
+
+/// every history of length <= 3 over {record t, add_event t (t in 0..4), clear} (the sibling insertion paths mixed in every order on
+/// ONE window, with and without clears) on a sliding window (duration 1 and 2, start 0,
+/// cap 1 and 100), each followed by one more record (so that the state left by the last op is read back by the next one)
+fn exhaustive_clear(out: &mut Vec<String>) {
+    let mut alphabet: Vec<String> = vec!["c".to_string()];
+    for t in 0..4u64 {
+        alphabet.push(format!("r{}:i{}", t, t + 1));
+        alphabet.push(format!("a{}:i{}", t, t + 1));
+    }
+    let mut seqs: Vec<Vec<String>> = vec![];
+    let mut frontier: Vec<Vec<String>> = vec![vec![]];
+    for _ in 0..3 {
+        let mut next = Vec::new();
+        for s in &frontier {
+            for a in &alphabet {
+                let mut s2 = s.clone();
+                s2.push(a.clone());
+                next.push(s2);
+            }
+        }
+        seqs.extend(next.iter().cloned());
+        frontier = next;
+    }
+    for s in &seqs {
+        for (d, cap) in [(1u64, 100usize), (2, 100), (2, 1), (3, 2)] {
+            out.push(format!("TW S {} 0 {} {},r2:i7", d, cap, s.join(",")));
+        }
+    }
+}
+
+fn gen_clear(rng: &mut Rng, k: usize) -> String {
+    let base = match k % 4 {
+        0 | 1 => gen_tw(rng),
+        2 => gen_an(rng),
+        _ => gen_an_session(rng),
+    };
+    let t: Vec<&str> = base.split_whitespace().collect();
+    let last = t.len() - 1;
+    let mut items: Vec<String> = list(t[last]).iter().map(|s| s.to_string()).collect();
+    for _ in 0..rng.range(1, 3) {
+        let at = match rng.below(6) {
+            0 => 0,
+            1 => items.len(),
+            _ => rng.below(items.len() as u64 + 1) as usize,
+        };
+        items.insert(at, "c".to_string());
+    }
+    format!("{} {}", t[..last].join(" "), items.join(","))
 }
 
 // ---------------------------------------------------------------- shrink
